@@ -215,7 +215,23 @@ func configs(prop string, thorough bool) []*Config {
 		if thorough {
 			same.Logins[3] = LoginDef{PID: 101, SameAs: 1}
 		}
-		return []*Config{c, &same}
+		// ... and with cleanup at every distinct cut-off between the two generations: the new session's age is its
+		// own (nothing it inherits from the ended one makes it look stale), so a cut-off before its LOGIN record
+		// leaves it alone
+		cl := &Config{Name: "C09-reuse-with-cleanup", CutMode: 2, OSeq: true, OIdent: true,
+			Sess: []SessDef{
+				{ID: "1", PID: "101", Events: []auparse.AuditMessageType{tLOGIN, tEV, tDISP}},
+				{ID: "2", PID: "101", Events: []auparse.AuditMessageType{tLOGIN, tEV, tDISP}},
+			},
+			Logins: []LoginDef{{PID: 101}, {PID: 101}},
+			Gate: func(sp *Spec, op Op) bool {
+				if (op.K == "A" && op.I == 1) || (op.K == "L" && op.I == 1) {
+					return sp.sess[0].status == sEnded
+				}
+				return true
+			},
+		}
+		return []*Config{c, &same, cl}
 	case "C16":
 		ev3 := []auparse.AuditMessageType{tLOGIN, tEV, tDISP}
 		c := &Config{Name: "C16-cleanup", CutMode: 3, OSeq: true,
